@@ -2,6 +2,7 @@
 // `@FLOAT@` is replaced by f64 (default build) or f32 (feature "f32", property C19).
 use vstd::prelude::*;
 use vstd::std_specs::ops::*;
+use std::rc::Rc;
 verus! {
 pub type Float = @FLOAT@;
 
